@@ -32,6 +32,15 @@ SpanMeans(g, cfg, m) ==
   /\ m.ulcolor = Opt(g.ul, cfg.pal)
   /\ ToSet(m.eff) = g.eff \ {"BLINK", "INVERT"}
 
+\* a character whose base rendition is unknown (after an "odd" list): what every candidate agrees on is still owed
+SpanKnownOk(S, cfg, m) ==
+  LET c == CHOOSE c \in S : TRUE IN
+  /\ m.undefined = <<>>
+  /\ ((\A a \in S : FgOf(a, cfg) = FgOf(c, cfg)) => m.fill = Opt(FgOf(c, cfg), cfg.pal))
+  /\ ((\A a \in S : a.ul = c.ul) => m.ulcolor = Opt(c.ul, cfg.pal))
+  /\ \A e \in Effects \ {"BLINK", "INVERT"} :
+        ((\A a \in S : (e \in a.eff) = (e \in c.eff)) => ((e \in ToSet(m.eff)) = (e \in c.eff)))
+
 \* expected lines: sequences of [c, S, wild]
 RECURSIVE SplitAtLf(_, _, _)
 SplitAtLf(cs, cur, acc) ==
@@ -56,7 +65,7 @@ FgRowOk(line, spans, cfg) ==
   /\ Len(flat) = Len(line)
   /\ \A k \in 1..Len(line) :
         /\ flat[k][1] = line[k].c
-        /\ (line[k].wild \/ \E g \in line[k].S : SpanMeans(g, cfg, flat[k][2]))
+        /\ (IF line[k].wild THEN SpanKnownOk(line[k].S, cfg, flat[k][2]) ELSE \E g \in line[k].S : SpanMeans(g, cfg, flat[k][2]))
 
 BgRowOk(line, bg, cfg) ==
   LET may  == UNION {{Opt(BgOf(g, cfg), cfg.pal) : g \in line[k].S} : k \in 1..Len(line)}
